@@ -983,6 +983,56 @@ fn panic_case(case: &mut Case) {
     }
 }
 
+/// Blocks that take longer than a second (a slow model: about a millisecond per state), so that
+/// idle workers stay parked in the market for seconds while another one is busy - timed waits,
+/// spurious wake-ups and "nobody has worked for a while" heuristics have their window here.
+/// Same verdict as everywhere: the multi-threaded run evaluates exactly the reachable set.
+fn slow_blocks_case(case: &mut Case) {
+    let (d, w) = *case.rng.pick(&[(3usize, 900usize), (2, 1500)]);
+    let mut g = gen_graph(&mut case.rng, &Knobs { layered: Some((d, w)), ..Knobs::default() });
+    g.inits = (0..(w / 2) as u32).collect();
+    g.spin_us = *case.rng.pick(&[700u64, 1000]);
+    let reach = g.reach();
+    add_props_with_keepalive(&mut case.rng, &mut g, &reach, 0);
+    case.distinct(g.structural_hash(), reach.count >= 1500);
+    let model = GraphModel(Arc::new(g));
+    case.sample(|| model.summary());
+    let strat = *case.rng.pick(&[Strat::Bfs, Strat::Dfs]);
+    let threads = *case.rng.pick(&[2usize, 4]);
+    let sc = Scenario { threads, finish_when: None, target: None };
+    match spawn_and_join(&model, strat, &sc, Duration::from_secs(120), None) {
+        Outcome::Hung(market) => hang_verdict(case, "slow-blocks", strat, threads, market, &model),
+        Outcome::Panicked(msg, _) => {
+            case.violation(&format!("C05/slow-blocks/{}/join-panicked-without-model-panic", strat.name()), json!({"model": model.summary(), "threads": threads, "panic": msg}));
+        }
+        Outcome::Done(o) => {
+            case.add("slow_block_runs", 1);
+            case.add("states_visited", o.visited.len() as u64);
+            let mut seen = vec![0u32; model.n];
+            for s in &o.visited {
+                seen[*s as usize] += 1;
+            }
+            for s in 0..model.n {
+                let expect = u32::from(reach.reachable[s]);
+                if seen[s] != expect {
+                    let what = if seen[s] == 0 { "state-lost" } else if expect == 0 { "unreachable-state-evaluated" } else { "state-evaluated-twice" };
+                    case.violation(
+                        &format!("C05/slow-blocks/{}/{}", strat.name(), what),
+                        json!({"model": model.summary(), "threads": threads, "state": s, "times": seen[s], "visited": o.visited.len(), "reachable": reach.count,
+                               "join_s": o.join_time.as_secs_f64()}),
+                    );
+                    return;
+                }
+            }
+            if !o.is_done {
+                case.violation(&format!("C05/slow-blocks/{}/not-done-after-join", strat.name()), json!({"model": model.summary(), "threads": threads}));
+                return;
+            }
+            account_market(case, o.market, strat, &model, threads);
+        }
+    }
+}
+
 /// A panic in model code during simulation: `join` must end (with the panic), not hang and not
 /// return as if nothing had happened. The panic sits in `next_state` of the only initial state,
 /// so the very first trace of every worker reaches it.
@@ -1308,6 +1358,7 @@ pub fn run(ctx: &mut Ctx) {
     ctx.cases("simulation", ctx.n(40, 1500), 0, simulation_case);
     ctx.cases("simulation_finish_condition", ctx.n(60, 1500), 8, simulation_finish_case);
     ctx.cases("simulation_model_panic", ctx.n(30, 600), 0, simulation_panic_case);
+    ctx.cases("slow_blocks", ctx.n(6, 40), 6, slow_blocks_case);
     ctx.info("perturbations_applied", json!(PERTURB_COUNT.load(Ordering::Relaxed)));
     verif::set_sink(None);
     verif::set_perturber(None);
